@@ -73,6 +73,8 @@ ASSUMPTIONS = [
 ]
 BUDGET = {'quick': {'cases': 8000, 'shards': 16, 'seconds': 150, 'shrink_s': 20},
           'thorough': {'cases': 120000, 'shards': 16, 'seconds': 780, 'shrink_s': 90}}
+# a case runs a handful of one-line shell scripts (plus, rarely, one 4-second time-out per task)
+CASE_TIMEOUT = 90
 FLOORS = {'direct': 0.3, 'sched': 0.3, 'sched-2w': 0.1, 'fail-nonlast': 0.25,
           'unstartable': 0.12, 'unstartable-nonlast': 0.05, 'invalid-name': 0.12,
           'rerun-same-name': 0.12, 'multi-task-root': 0.5, 'signal': 0.04,
